@@ -361,10 +361,10 @@ impl G {
     let enums = self.prof == Profile::Enums;
     let strs = self.prof == Profile::Strings;
     let mut prods: Vec<(u32, &'static str)> = vec![
-      (4, "var"),
-      (4, "call"),
-      (3, "mcall"),
-      (2, "field"),
+      (9, "var"),
+      (5, "call"),
+      (4, "mcall"),
+      (5, "field"),
       (2, "if"),
       (if enums { 6 } else { 3 }, "match"),
       (2, "block"),
@@ -792,7 +792,7 @@ impl G {
       return Some((atom(n, r), t));
     }
     if d >= 1 {
-      let tys: Vec<Ty> = self.pool.iter().filter(|t| self.matchable(t, cx)).cloned().collect();
+      let tys: Vec<Ty> = self.vpool(cx.module).into_iter().filter(|t| self.matchable(t, cx)).collect();
       if tys.is_empty() {
         return None;
       }
@@ -919,17 +919,30 @@ impl G {
     Some(opx(format!("if let {ptxt} = {} {} else {}", scrut.s, braced(&a), braced(&b)), hull(a.r, b.r)))
   }
 
-  fn pick_ty(&mut self) -> Ty {
+  fn ty_visible(&self, ty: &Ty, module: usize) -> bool {
+    match ty {
+      Ty::C(n, a) => self.class(n).map(|c| c.module == STD || c.module < module || (c.module == module)).unwrap_or(false) && a.iter().all(|t| self.ty_visible(t, module)),
+      Ty::F(p, r) => p.iter().all(|t| self.ty_visible(t, module)) && self.ty_visible(r, module),
+      Ty::V(t) => self.ty_visible(t, module),
+      _ => true,
+    }
+  }
+  /// the pool types usable in module `module`
+  fn vpool(&self, module: usize) -> Vec<Ty> {
+    self.pool.iter().filter(|t| self.ty_visible(t, module)).cloned().collect()
+  }
+  fn pick_ty(&mut self, module: usize) -> Ty {
     let n = self.rng.below(10);
     match n {
       0..=2 => Ty::Int,
       3 => Ty::Bool,
       4 => Ty::Str,
       _ => {
-        if self.pool.is_empty() {
+        let pool = self.vpool(module);
+        if pool.is_empty() {
           Ty::Int
         } else {
-          self.pool[self.rng.below(self.pool.len())].clone()
+          pool[self.rng.below(pool.len())].clone()
         }
       }
     }
@@ -940,7 +953,7 @@ impl G {
     let choice = self.rng.below(10);
     // tuple destructuring
     if choice == 0 || choice == 1 {
-      let (ta, tb) = (self.pick_ty(), self.pick_ty());
+      let (ta, tb) = (self.pick_ty(cx.module), self.pick_ty(cx.module));
       if !matches!(ta, Ty::V(_)) && !matches!(tb, Ty::V(_)) {
         let pt = Ty::pair(ta.clone(), tb.clone());
         let rhs = match self.p_var(&pt, cx, ANY) {
@@ -971,7 +984,7 @@ impl G {
     }
     // struct destructuring
     if choice == 2 || choice == 3 {
-      let structs: Vec<Ty> = self.pool.iter().filter(|t| self.fields_accessible(t, cx) && !matches!(t, Ty::C(n, _) if n == "Pair")).cloned().collect();
+      let structs: Vec<Ty> = self.vpool(cx.module).into_iter().filter(|t| self.fields_accessible(t, cx) && !matches!(t, Ty::C(n, _) if n == "Pair")).collect();
       if !structs.is_empty() {
         let st = structs[self.rng.below(structs.len())].clone();
         let rhs = match self.p_var(&st, cx, ANY) {
@@ -983,7 +996,7 @@ impl G {
         for f in &fs {
           match self.rng.below(4) {
             0 => parts.push(format!("{} as _", f.name)),
-            1 => {
+            1 if cx.lookup(&f.name).is_none() => {
               parts.push(f.name.clone());
               cx.push(&f.name, &f.ty, f.r);
             }
@@ -1005,7 +1018,7 @@ impl G {
       self.feat("trace-print");
       return vec![format!("Process.println(\"t{}\");", self.marker)];
     }
-    let ty = self.pick_ty();
+    let ty = self.pick_ty(cx.module);
     let e = self.gen(&ty, cx, d, self.wide(&ty));
     let n = self.fresh("v");
     let annot = if self.rng.chance(1, 6) && !matches!(ty, Ty::F(..)) { format!(": {}", ty.txt()) } else { String::new() };
@@ -1139,7 +1152,7 @@ impl G {
     let mut params = vec![];
     let mut args = vec![];
     for _ in 0..np {
-      let t = if self.rng.chance(2, 3) { Ty::Int } else { self.pick_ty() };
+      let t = if self.rng.chance(2, 3) { Ty::Int } else { self.pick_ty(cx.module) };
       if matches!(t, Ty::F(..)) {
         return None;
       }
@@ -1374,7 +1387,7 @@ impl G {
   }
 
   fn p_fold(&mut self, cx: &Ctx, d: u32, want: R) -> Option<E> {
-    let elem = if self.rng.chance(3, 4) { Ty::Int } else { self.pick_ty() };
+    let elem = if self.rng.chance(3, 4) { Ty::Int } else { self.pick_ty(cx.module) };
     if matches!(elem, Ty::V(_) | Ty::F(..)) || cx.mult > 60 {
       return None;
     }
@@ -1406,7 +1419,11 @@ impl G {
   }
 
   fn p_valuemap(&mut self, cx: &Ctx, d: u32, want: R) -> Option<E> {
-    let elem = if self.rng.chance(2, 3) { Ty::Int } else { self.pick_ty() };
+    // std's `valueMap(default: R, ..)` has a TypeScript reserved word as a parameter name (known region)
+    if !self.allowed("tsreserved") {
+      return None;
+    }
+    let elem = if self.rng.chance(2, 3) { Ty::Int } else { self.pick_ty(cx.module) };
     if matches!(elem, Ty::V(_) | Ty::F(..)) {
       return None;
     }
